@@ -19,7 +19,19 @@ REGISTRY = {
     "C02": [("harness.c_itertools", "check_exactly_once"),
             ("harness.c_iteration", "check_exactly_once_interfaces")],
     "C03": [("harness.c_iteration", "check_order")],
+    "C01": [("harness.c_writers", "check_roundtrip")],
+    "C10": [("harness.c_writers", "check_shard_sizes")],
+    "C11": [("harness.c_writers", "check_custom_metadata")],
+    "C18": [("harness.c_writers", "check_bad_writes")],
+    "C04": [("harness.c_metadata", "check_histories")],
+    "C05": [("harness.c_metadata", "check_integrity")],
+    "C06": [("harness.c_metadata", "check_crash")],
     "C07": [("harness.c_iteration", "check_damage")],
+    "C08": [("harness.c_metadata", "check_histories")],
+    "C09": [("harness.c_metadata", "check_parallel_writers")],
+    "C16": [("harness.c_metadata", "check_digests")],
+    "C17": [("harness.c_metadata", "check_paths")],
+    "C20": [("harness.c_metadata", "check_reopen")],
     "C12": [("harness.c_iteration", "check_selection")],
     "C13": [("harness.c_lazy_pool", "check_pool")],
     "C14": [("harness.c_itertools", "check_laziness"),
